@@ -107,5 +107,25 @@ PROPS["C13"] = dict(
     assumptions=["reference executor is correct", "the documented exception: a failure inside a deferred group nulls the object the group belongs to"],
 )
 
+PROPS["C14"] = dict(
+    pkg="c14", race=False, level="exploration", prepare="exec_projects",
+    projects_quick=[("core", ["v0", "v1"])],
+    projects_thorough=[("core", ["v0", "v1", "v3", "v4"])],
+    quick=dict(shards=8, timeout=600), thorough=dict(shards=16, timeout=3000),
+    claim="differential testing of complexity.Calculate and the ComplexityLimit gate on generated servers against an independent "
+          "arbitrary-precision evaluator of the documented definition, over rapid-generated operations (fragments, interface and union "
+          "positions, arguments) x monotone custom cost functions a*child+b*arg+c (huge and negative constants) x limits placed at "
+          "value-2..value+2 and at extremes; metamorphic check that adding selections never lowers the value; the gate is checked through "
+          "the executor with the universal resolver's invocation log (over-limit => rejected and nothing invoked); the saturating add is "
+          "reached black-box over an exhaustive 13x13 boundary grid",
+    note="custom functions are restricted to monotone forms (the monotonicity clause is only meaningful for those); an interface that "
+         "implements the interface may count as an implementor with default cost (both readings of the docs are accepted)",
+    technique="property-based differential testing (rapid) against a reference evaluator + metamorphic monotonicity + exhaustive boundary grid",
+    rule="evaluation = one (operation, cost functions, limit) triple on one generated vector; non-trivial = a custom cost is used and the "
+         "operation has an interface position or fragment, or the value is within 2 of the limit, or saturation is reached; distinct by "
+         "(query, specs, limit)",
+    assumptions=["__schema/__type are excluded (their cost is not documented)", "harness evaluator implements the documented definition"],
+)
+
 # properties deliberately not claimed (reason); anything else missing from PROPS is "not built yet"
 NOT_CLAIMED = {}
